@@ -49,6 +49,10 @@ def cfgs_c03(tier):
     for n in names:
         for prof, feat in ((("vdev", True), ("vrel", False)) if tier == "thorough" or n in ("N0",) else (("vdev", True),) if n != "N2" else (("vrel", False),)):
             out.append(Q(n, prof, feat, lite=(n not in ("N0", "N0d")), crates=(None if n == "N0" else "aes" if n in ("N0d", "N3", "N4") else sens)))
+    if tier == "thorough":
+        # single-feature builds: zeroize only; hazmat + bcrypt without zeroize
+        out.append(Q("N0", "vdev", "fz"))
+        out.append(Q("N0", "vdev", "fhb"))
     return out
 
 
@@ -289,7 +293,7 @@ def run_loom(pid, tier):
             viol.append(dict(property=pid, subject="aes (threads)", what="schedule", config="loom",
                              case={"kind": "loom", "harness": h["harness"]}, expected="every thread's output equals FIPS-197 in every interleaving",
                              observed=h["violation"], note="loom found an interleaving of the detection cache under which a thread computes a wrong result"))
-        elif h["harness"].startswith(("H1", "H2")) and len(h.get("detections_histogram", {})) < 2:
+        elif h["harness"].startswith(("H1", "H2", "H4")) and len(h.get("detections_histogram", {})) < 2:
             core.die(f"loom vacuity guard: harness {h['harness']} produced a single detection outcome {h.get('detections_histogram')}: the threads never raced on the cache")
     POST_INFO["loom"] = res
     POST_INFO["loom_schedules"] = sum(h.get("executions", 0) for h in res)
@@ -383,11 +387,11 @@ TABLE = {
                      "Triple-DES bundles from listed/generic/parity-flipped parts; every other type on generic keys. Each case evaluates weak_key_test and new_checked on the implementation and the statement's predicate (model); "
                      "distinct = distinct (type,key); non-trivial = AES/DES-family cases and every positive.",
                 assumptions=["NIST weak-key list validated against libgcrypt's detector and the reference key schedule (refcheck)"]),
-    "C16": dict(level="exploration", cfgs=lambda t: std_cfgs(t, feat_only=True), tfnc=True,
+    "C16": dict(level="exploration", cfgs=lambda t: std_cfgs(t, feat_only=True) + ([Q("N0", "vdev", "fz"), Q("N0d", "vdev", "fz", crates="aes")] if t == "thorough" else []), tfnc=True,
                 rule="cases = (type, construction route in {new, new_from_slice, clone, clone of clone, clone then drop original, From<Enc> by value, From<&Enc>, clone of converted}, key) built in canary-filled storage with 3 canaries; "
                      "a byte is key-dependent if stable across canaries and different between keys; after drop_in_place every such byte that is live (flipping it changes behaviour) must read 0; non-trivial = cases of subjects with at least one key-dependent byte.",
                 assumptions=["dead storage (padding, inactive union arm) is identified by behavioural liveness and ignored", "zeroize feature on (feature-off builds are not applicable)"]),
-    "C17": dict(level="model_checking", cfgs=lambda t: std_cfgs(t, n0_crates="aes", sens="aes", feat_only=True),
+    "C17": dict(level="model_checking", cfgs=lambda t: std_cfgs(t, n0_crates="aes", sens="aes", feat_only=True) + ([Q("N0", "vdev", "fhb", crates="aes"), Q("N0d", "vdev", "fhb", crates="aes")] if t == "thorough" else []),
                 rule="cases = hazmat calls: cipher_round / equiv_inv_cipher_round on the (block, round key) star, mix_columns / inv_mix_columns on the block alphabet, *_par on 8-tuples (all different; differ in lane j only); "
                      "each executed on the implementation (AES-NI, detection-off software path, fixslice64, compact) and on the FIPS-197 round model.",
                 assumptions=[LEVEL_NOTE_DATA, "FIPS-197 round functions of the reference model validated against Appendix C and OpenSSL chaining"]),
@@ -543,7 +547,8 @@ def setup():
 def _cfg_from_label(label):
     label = label.split("@")[0]
     parts = label.split("-")
-    return Cfg(parts[0], parts[1], parts[2] == "feat", lite=(len(parts) > 3 and parts[3] == "lite"))
+    feat = {"feat": True, "nofeat": False}.get(parts[2], parts[2])
+    return Cfg(parts[0], parts[1], feat, lite=(len(parts) > 3 and parts[3] == "lite"))
 
 
 def replay(path):
